@@ -25,6 +25,17 @@ def run(tier, wd):
                             c, a = V.concrete(typ, role, ptr, default, envpat, clipat, rnd, tag="_%d" % (n % 7))
                             cases.append(c)
                             abstracts.append(a)
+    # the convenience methods (BoolOpt(name, value, desc), ...Ptr forms): default and command line only
+    for typ in V.BUILTIN:
+        for role in ("opt", "arg"):
+            for ptr in (False, True):
+                for default in V.DEFAULTS[typ]:
+                    for clipat in V.cli_patterns(2, False):
+                        n += 1
+                        c, a = V.concrete(typ, role, ptr, default, (), clipat, rnd, tag="_%d" % (n % 7))
+                        c["conv"] = True
+                        cases.append(c)
+                        abstracts.append(a)
     rows = vc.run_cases(rep, wd, binpath, cases, abstracts, "c06")
     nontriv = 0
     for case, a, clean, dev, r in rows:
@@ -51,7 +62,7 @@ def run(tier, wd):
                       {"engine": "values", "case": case, "expected": want, "expected_with_listed_deviation": devwant})
     rep.cov["distinct_nontrivial"] = nontriv
     rep.cov["exhaustive"] = True
-    rep.cov["rule"] = ("7 built-in types x option/argument x plain/Ptr entry point x default(s) x every list of <= %d environment variables each unset, empty, "
+    rep.cov["rule"] = ("7 built-in types x option/argument x plain/Ptr entry point (struct forms; plus the convenience methods without environment) x default(s) x every list of <= %d environment variables each unset, empty, "
                        "valid or invalid x 0..%d valid command-line values (each delivered in a random documented spelling); Values.tla runs its step machine on "
                        "every case and the clean machine is checked against the closed-form rule; non-trivial = at least two sources compete" % ((2, 2) if q else (3, 3)))
     rep.assumptions += ["validity of a token for a type is strconv's verdict, reported by the harness and cross-checked against the case's abstraction"]
